@@ -182,26 +182,33 @@ unsafe fn level_swap<M: Manager>(
             .collect();
 
         drop(grandchildren);
-        for child in children {
-            // Revisit the "old" children of `e`. If these are the only
-            // children, we may remove them, if they are on the old lower level.
-            // (A child might also be at some lower level, in which case the
-            // node could also be removed. However we must not access such a
-            // node.)
-            if let Node::Inner(child_node) = manager.get_node(&*child)
-                && child_node.level() == lower_no_pre
-                && child_node.ref_count() == 1
-            {
-                // The reference stems from the old `node`, whose children
-                // we replace below. Hence, we can remove child node.
+        drop(children);
+        // SAFETY: we have exclusive access to all nodes at the old upper
+        // level and no child is borrowed.
+        let old_children: SmallVec<[M::Edge; 2]> = new_children
+            .into_iter()
+            .enumerate()
+            .map(|(i, child)| unsafe { node.set_child(i, child) })
+            .collect();
+        for child in old_children {
+            // Revisit the "old" children of `e`. If this was the only
+            // reference, we may remove the child, if it is on the old lower
+            // level. (A child might also be at some lower level, in which case
+            // the node could also be removed. However we must not access such a
+            // node.) The edge must be dropped before removing the node from
+            // the unique table, otherwise the node's slot would never be freed.
+            let remove = match manager.get_node(&child) {
+                Node::Inner(child_node)
+                    if child_node.level() == lower_no_pre && child_node.ref_count() == 1 =>
+                {
+                    Some(child_node)
+                }
+                _ => None,
+            };
+            manager.drop_edge(child);
+            if let Some(child_node) = remove {
                 upper.remove(child_node);
             }
-        }
-
-        for (i, child) in new_children.into_iter().enumerate() {
-            // SAFETY: we have exclusive access to all nodes at the old upper
-            // level and no child is borrowed.
-            manager.drop_edge(unsafe { node.set_child(i, child) });
         }
         // Insert only now: the node's position in the unique table depends on
         // its (new) children.
